@@ -13,7 +13,8 @@
 From Coq Require Import List Arith ZArith Ring_theory Permutation.
 From TLV Require Import Base.Shape Base.PyList Base.Tensor Base.BigSum Model.Base Model.Tenalg
   Proofs.TenalgProofs Proofs.TenalgProofsKR Proofs.TenalgProofsEinsum Proofs.TenalgProofsInner
-  Proofs.TenalgProofsOuter Proofs.TenalgProofsSample Proofs.TenalgProofsSort Proofs.TenalgProofsEinsumVec Proofs.TenalgProofsMulti Proofs.TenalgProofsEinsumInner.
+  Proofs.TenalgProofsOuter Proofs.TenalgProofsSample Proofs.TenalgProofsSort Proofs.TenalgProofsEinsumVec Proofs.TenalgProofsMulti Proofs.TenalgProofsEinsumInner
+  Proofs.TenalgProofsEinsumMttkrp Proofs.TenalgProofsEinsumKR Proofs.TenalgProofsEinsumOuter Proofs.TenalgProofsMultiGen Proofs.TenalgProofsMultiGen2.
 Import ListNotations.
 
 Definition ring_of {F} (Op : rops F) := ring_theory (r0 Op) (r1 Op) (radd Op) (rmul Op) (rsub Op) (ropp Op) (@eq F).
@@ -139,6 +140,84 @@ Theorem C02_einsum_sum_over_index_space : forall (F : Type) (Op : rops F), ring_
 Proof. exact @esum_ssum. Qed.
 Print Assumptions C02_einsum_sum_over_index_space.
 
+(* einsum backend MTTKRP: the built equation is the textbook MTTKRP (any order >= 1, mode, weights None or a length-R vector),
+   hence equals the default core MTTKRP (order >= 2) *)
+Theorem C02_mttkrp_einsum : forall (F : Type) (Op : rops F), ring_of Op -> conj_laws Op ->
+  forall (T : tensor F) (w : option (tensor F)) (fs : list (tensor F)) (k R : nat),
+  wf T -> k < ndim T -> 0 < R -> map nrows fs = shape T -> mats R fs ->
+  (forall w0, w = Some w0 -> wf w0 /\ shape w0 = [R]) ->
+  exists Mt, mttkrp_e Op T w fs k = Ok Mt /\ wf Mt /\ shape Mt = [nth k (shape T) 0; R] /\
+    forall i r, i < nth k (shape T) 0 -> r < R ->
+      get (r0 Op) Mt [i; r] =
+      ssum Op (remove_nth k (shape T))
+        (fun ridx => rmul Op (get (r0 Op) T (insert_at k i ridx))
+                             (rconj Op (rmul Op (kr_entry Op (remove_nth k fs) ridx r) (wv Op w r)))).
+Proof. exact @mttkrp_e_spec. Qed.
+Print Assumptions C02_mttkrp_einsum.
+
+Corollary C02_mttkrp_backends_agree : forall (F : Type) (Op : rops F), ring_of Op -> conj_laws Op ->
+  forall (T : tensor F) (w : option (tensor F)) (fs : list (tensor F)) (k R : nat),
+  wf T -> k < ndim T -> 0 < prod (shape T) -> 0 < R -> map nrows fs = shape T -> mats R fs -> 2 <= ndim T ->
+  (forall w0, w = Some w0 -> wf w0 /\ shape w0 = [R]) ->
+  mttkrp Op T w fs k = mttkrp_e Op T w fs k.
+Proof. exact @mttkrp_backends_agree. Qed.
+Print Assumptions C02_mttkrp_backends_agree.
+
+(* einsum backend khatri_rao (any number of matrices, weights, mask, skip_matrix): same entry formula, hence core = einsum *)
+Theorem C02_khatri_rao_einsum : forall (F : Type) (Op : rops F), ring_of Op ->
+  forall (Ms : list (tensor F)) (w mask : option (tensor F)) (skip : option nat) (R : nat),
+  let Ms' := skipl skip Ms in
+  Ms' <> [] -> mats R Ms' -> 0 < R -> (forall w0, w = Some w0 -> shape w0 = [R]) ->
+  exists K, khatri_rao_e Op Ms w mask skip = Ok K /\ wf K /\ shape K = [prod (map nrows Ms'); R] /\
+    forall is_ r, inb (map nrows Ms') is_ -> r < R ->
+      get (r0 Op) K [ravel (map nrows Ms') is_; r]
+      = rmul Op (rmul Op (kr_entry Op Ms' is_ r) (wv Op w r)) (maskv Op mask (ravel (map nrows Ms') is_)).
+Proof. exact @khatri_rao_e_spec. Qed.
+Print Assumptions C02_khatri_rao_einsum.
+
+Corollary C02_khatri_rao_backends_agree : forall (F : Type) (Op : rops F), ring_of Op ->
+  forall (Ms : list (tensor F)) (w mask : option (tensor F)) (skip : option nat) (R : nat),
+  let Ms' := skipl skip Ms in
+  Ms' <> [] -> mats R Ms' -> 0 < R -> (forall w0, w = Some w0 -> shape w0 = [R]) ->
+  khatri_rao Op Ms w mask skip = khatri_rao_e Op Ms w mask skip.
+Proof. exact @khatri_rao_backends_agree. Qed.
+Print Assumptions C02_khatri_rao_backends_agree.
+
+(* einsum backend kronecker (any number of matrices, skip_matrix, reverse): same entry formula, hence core = einsum *)
+Theorem C02_kronecker_einsum : forall (F : Type) (Op : rops F) (Ms : list (tensor F)) (skip : option nat) (reverse : bool),
+  let l := if reverse then rev (skipl skip Ms) else skipl skip Ms in
+  l <> [] -> kmats l ->
+  exists K, kronecker_e Op Ms skip reverse = Ok K /\ wf K /\ shape K = [prod (map nrows l); prod (map ncols l)] /\
+    forall is_ js, inb (map nrows l) is_ -> inb (map ncols l) js ->
+      get (r0 Op) K [ravel (map nrows l) is_; ravel (map ncols l) js] = kron_entry Op l is_ js.
+Proof. exact @kronecker_e_spec. Qed.
+Print Assumptions C02_kronecker_einsum.
+
+Corollary C02_kronecker_backends_agree : forall (F : Type) (Op : rops F), ring_of Op ->
+  forall (Ms : list (tensor F)) (skip : option nat) (reverse : bool),
+  let l := if reverse then rev (skipl skip Ms) else skipl skip Ms in
+  l <> [] -> kmats l -> kronecker Op Ms skip reverse = kronecker_e Op Ms skip reverse.
+Proof. exact @kronecker_backends_agree. Qed.
+Print Assumptions C02_kronecker_backends_agree.
+
+(* outer, batched_outer, higher_order_moment: the einsum backend (folds of einsum tensordot with batched_modes = () / 0)
+   returns the same tensor as the core backend; hasb nb t = t has order >= 1 and batch size nb *)
+Theorem C02_outer_backends_agree : forall (F : Type) (Op : rops F), ring_of Op ->
+  forall ts : list (tensor F), outer Op ts = outer_e Op ts.
+Proof. exact @outer_backends_agree. Qed.
+Print Assumptions C02_outer_backends_agree.
+
+Theorem C02_batched_outer_backends_agree : forall (F : Type) (Op : rops F), ring_of Op ->
+  forall (nb : nat) (ts : list (tensor F)), Forall (hasb nb) ts -> batched_outer Op ts = batched_outer_e Op ts.
+Proof. exact @batched_outer_backends_agree. Qed.
+Print Assumptions C02_batched_outer_backends_agree.
+
+Theorem C02_higher_order_moment_backends_agree : forall (F : Type) (Op : rops F), ring_of Op ->
+  forall (nb : nat) (T : tensor F) (order : nat), hasb nb T ->
+  higher_order_moment_sum Op T order = higher_order_moment_sum_e Op T order.
+Proof. exact @moment_backends_agree. Qed.
+Print Assumptions C02_higher_order_moment_backends_agree.
+
 (* einsum backend, vector operand: same contraction formula as the core backend, hence the backends agree *)
 Theorem C02_mode_dot_einsum_vector : forall (F : Type) (Op : rops F), ring_of Op ->
   forall (T v : tensor F) (k : nat) (tr : bool) (n : nat),
@@ -158,9 +237,8 @@ Print Assumptions C02_mode_dot_vector_backends_agree.
 
 (* multi_mode_dot (core), matrix operands on distinct modes, any subset / listing order of modes, skip, transpose:
    R[idx] = sum_{i_1..i_p} (prod_j M_j[idx_{m_j}, i_j]) * T[idx with positions m_j replaced by i_j].
-   PARTIAL: every operand of the list is a matrix (vector operands, which shift the later modes, are covered by the
-   correspondence and the Python predicate only). *)
-Theorem C02_multi_mode_dot_matrices_partial : forall (F : Type) (Op : rops F), ring_of Op ->
+   Special case of C02_multi_mode_dot_core below (every operand a matrix) with the index surgery written as set_many. *)
+Theorem C02_multi_mode_dot_matrices_closed_form : forall (F : Type) (Op : rops F), ring_of Op ->
   forall (T : tensor F) (Ms : list (tensor F)) (modes : option (list nat)) (skip : option nat) (tr : bool),
   let L := filter (fun x => negb (is_skip skip (snd x))) (sort_by_mode (zip3 Ms modes)) in
   let ms := map (@t_mode F) L in
@@ -172,7 +250,31 @@ Theorem C02_multi_mode_dot_matrices_partial : forall (F : Type) (Op : rops F), r
       get (r0 Op) R idx = ssum Op (map (fun m => nth m (shape T) 0) ms)
                       (fun is_ => rmul Op (mm_coef Op tr L is_ idx) (get (r0 Op) T (set_many ms is_ idx))).
 Proof. exact @multi_mode_dot_matrices_spec. Qed.
-Print Assumptions C02_multi_mode_dot_matrices_partial.
+Print Assumptions C02_multi_mode_dot_matrices_closed_form.
+
+(* multi_mode_dot (core), FULL: any mix of matrix and vector operands on distinct modes, any subset / listing order of modes,
+   skip, transpose.  L = the non-skipped (operand, mode, operand index) triples in increasing mode order (the sort of the code);
+   hypotheses: their modes are pairwise distinct and every one fits its mode (operand_fits: mode < order, a length-s_m vector or
+   a well-formed (J, s_m) matrix, (s_m, J) under transpose, J > 0).
+   R[o] = sum_{is} (prod_j c_j) * T[full L 0 is o], c_j = M_j[o at the output position of m_j, is_j] (conjugate transpose under
+   tr) or v_j[is_j] (conjugated under tr: C02_multi_mode_dot_vector_coefficient); outs / sizes / full / coef
+   (Proofs/TenalgProofsMultiGen.v) spell out the output shape (vector modes removed), the contracted sizes, the T-index (is_j
+   put at mode m_j: replacing for a matrix, inserted for a vector) and the coefficient product. *)
+Theorem C02_multi_mode_dot_core : forall (F : Type) (Op : rops F), ring_of Op ->
+  forall (T : tensor F) (Ms : list (tensor F)) (modes : option (list nat)) (skip : option nat) (tr : bool),
+  let L := filter (fun x => negb (is_skip skip (snd x))) (sort_by_mode (zip3 Ms modes)) in
+  wf T -> 0 < prod (shape T) -> NoDup (map (@t_mode F) L) -> Forall (operand_fits tr (shape T)) L ->
+  exists R, multi_mode_dot Op T Ms modes skip tr = Ok R /\ wf R /\ shape R = outs tr L 0 (shape T) /\
+    forall o, inb (shape R) o ->
+      get (r0 Op) R o = ssum Op (sizes L 0 (shape T)) (fun is_ => rmul Op (coef Op tr L 0 is_ o) (get (r0 Op) T (full L 0 is_ o))).
+Proof. exact @multi_mode_dot_full_natural. Qed.
+Print Assumptions C02_multi_mode_dot_core.
+
+Theorem C02_multi_mode_dot_vector_coefficient : forall (F : Type) (Op : rops F) (X : tensor F) (n i : nat),
+  wf X -> shape X = [n] -> i < n ->
+  vcoef Op true X i = rconj Op (get (r0 Op) X [i]) /\ vcoef Op false X i = get (r0 Op) X [i].
+Proof. exact @vcoef_conj. Qed.
+Print Assumptions C02_multi_mode_dot_vector_coefficient.
 
 (* multi_mode_dot (both backends, skip=None, any operand kinds): the result does not depend on the order in which the
    (operand, mode) pairs are listed *)
@@ -263,7 +365,7 @@ Proof.
   repeat constructor.
 Qed.
 
-(* non-vacuity of C02_multi_mode_dot_matrices_partial: operands listed out of mode order, one skipped, conjugate transpose *)
+(* non-vacuity of C02_multi_mode_dot_matrices_closed_form: operands listed out of mode order, one skipped, conjugate transpose *)
 Example C02_nonvacuous_multi_mode_dot :
   let T : tensor GI := mk [2; 1; 2] [(1, 1); (0, 2); (-1, 0); (3, -1)]%Z in
   let M2 : tensor GI := mk [2; 3] [(1, 0); (0, 1); (2, 0); (0, -1); (1, 1); (0, 0)]%Z in
@@ -289,3 +391,24 @@ Example C02_nonvacuous_sample_moment :
   sample_kr_rows ZR [A; B] None [[1; 0]; [2; 1]] 2 = mk [2; 2] [27; 40; 7; 16]%Z /\
   higher_order_moment_sum ZR B 2 = Ok (mk [2; 2] [155; 176; 176; 200]%Z).
 Proof. cbv zeta. repeat split; vm_compute; reflexivity. Qed.
+
+(* non-vacuity of C02_multi_mode_dot_core: a vector between two matrices, listed out of mode order, conjugate transpose *)
+Example C02_nonvacuous_multi_mode_dot_mixed :
+  let T : tensor GI := mk [2; 1; 2] [(1, 1); (0, 2); (-1, 0); (3, -1)]%Z in
+  let M2 : tensor GI := mk [2; 3] [(1, 0); (0, 1); (2, 0); (0, -1); (1, 1); (0, 0)]%Z in
+  let M0 : tensor GI := mk [2; 1] [(0, 1); (2, -1)]%Z in
+  let v1 : tensor GI := mk [1] [(1, -2)]%Z in
+  let L := filter (fun x => negb (is_skip None (snd x))) (sort_by_mode (zip3 [M2; v1; M0] (Some [2; 1; 0]))) in
+  wf T /\ 0 < prod (shape T) /\ NoDup (map (@t_mode GI) L) /\ Forall (operand_fits true (shape T)) L /\
+  outs true L 0 (shape T) = [1; 3] /\ sizes L 0 (shape T) = [2; 1; 2] /\
+  multi_mode_dot GR T [M2; v1; M0] (Some [2; 1; 0]) None true = multi_mode_dot_e GR T [M2; v1; M0] (Some [2; 1; 0]) None true /\
+  multi_mode_dot GR T [M2; v1; M0] (Some [2; 1; 0]) None true = Ok (mk [1; 3] [(-16, 3); (22, 9); (6, -8)]%Z).
+Proof.
+  cbv zeta. split; [vm_compute; reflexivity|]. split; [vm_compute; auto with arith|].
+  split; [vm_compute; repeat constructor; simpl; intuition discriminate|].
+  split; [|repeat split; vm_compute; reflexivity].
+  vm_compute filter. repeat (apply Forall_cons || apply Forall_nil).
+  all: unfold operand_fits; cbn [t_mode fst snd shape length nth]; split; [auto with arith | split; [vm_compute; reflexivity |]].
+  all: try (left; reflexivity).
+  all: right; eexists; eexists; repeat split; try reflexivity; auto with arith.
+Qed.
